@@ -188,7 +188,9 @@ fn many_devices_scenario(rng: &mut Rng, tier: Tier) -> Scenario {
     cfg.matchers = cfg.matchers.min(6);
     cfg.unsupported = 0;
     let subject = gen::expression(rng, &cfg);
-    let n = *rng.pick(&[17usize, 33, 65, 129, 257, 257, 300, 513, 1025]);
+    // one in twelve: an installation (or a long-lived service rendering per request) beyond any small
+    // power of two, so that caches sized "generously" (2048, 4096, 16384 entries) start to evict
+    let n = if rng.chance(1, 12) { *rng.pick(&[2049usize, 4097, 5000, 8193, 16385, 40000]) } else { *rng.pick(&[17usize, 33, 65, 129, 257, 257, 300, 513, 1025]) };
     let style = rng.below(3);
     let mut paths = vec![FIXED_PATH.to_string()];
     for i in 0..n {
@@ -209,7 +211,7 @@ fn many_devices_scenario(rng: &mut Rng, tier: Tier) -> Scenario {
         }
     }
     // come back to devices seen long ago, and to recent ones
-    for _ in 0..rng.range(8, 40) {
+    for _ in 0..rng.range(8, 40) + (n as u64) / 64 {
         let i = match rng.below(3) {
             0 => rng.range(1, 4) as usize,
             1 => n - rng.usize_below(4.min(n)),
@@ -801,7 +803,7 @@ pub static PROP: crate::histcheck::HistProp = crate::histcheck::HistProp {
     id: "C20",
     scenario,
     judge,
-    rule: "One case = one seeded call history (5-40 operations after 1-3 compiles; one in 60 renders 17-1025 distinct devices on one expression and revisits early ones; one in 80 uses 8-40 look-alike expressions: scheme(path) for 2-6 device paths drawn from benign, awkward (spaces, ~ % ; # parens, non-ASCII incl. combining marks, NUL, DEL, ESC, BOM, U+2028, newline, empty, 255 bytes to 1 MiB, placeholder look-alikes, aliases of another path) and hostile (quotes and backslashes anywhere, also next to multi-byte characters) strings, io_map(), further compiles into the same slots, unrelated compilations, caller-thread switches, hash-key epochs, clock jumps, logger flips, environment changes) against the real library, checked against the model handle = immutable (template, table): same path => identical bytes; different paths => identical tokens except one string token that decodes to the path, and identical bytes outside that token. Non-trivial = some handle was rendered for >= 2 distinct paths or twice for one path. distinct_nontrivial counts distinct history shapes (operation kinds with slots and path indices) among non-trivial runs. Two further passes (coverage.concurrent_pass) run overlapping calls under controlled schedulers.",
+    rule: "One case = one seeded call history (5-40 operations after 1-3 compiles; one in 60 renders 17-1025 (one in 720: 2049-40000) distinct devices on one expression and revisits early and late ones; one in 80 uses 8-40 look-alike expressions: scheme(path) for 2-6 device paths drawn from benign, awkward (spaces, ~ % ; # parens, non-ASCII incl. combining marks, NUL, DEL, ESC, BOM, U+2028, newline, empty, 255 bytes to 1 MiB, placeholder look-alikes, aliases of another path) and hostile (quotes and backslashes anywhere, also next to multi-byte characters) strings, io_map(), further compiles into the same slots, unrelated compilations, caller-thread switches, hash-key epochs, clock jumps, logger flips, environment changes) against the real library, checked against the model handle = immutable (template, table): same path => identical bytes; different paths => identical tokens except one string token that decodes to the path, and identical bytes outside that token. Non-trivial = some handle was rendered for >= 2 distinct paths or twice for one path. distinct_nontrivial counts distinct history shapes (operation kinds with slots and path indices) among non-trivial runs. Two further passes (coverage.concurrent_pass) run overlapping calls under controlled schedulers.",
     assumptions: &[
         "the program is read with Guile's string syntax: only backslash and double quote are special inside a string literal; escapes \\\\ \\\" \\n \\t \\a \\b \\f \\r \\v \\0 \\xHH are known, any other escape is an error",
         "caller threads are simulated at call granularity (no two calls overlap); the library has no synchronisation primitive a finer schedule could exercise",
